@@ -19,6 +19,10 @@ def rounded_bounds(T, res):
   if not res:
     return T, T
   r = Fraction(str(res))
+  if math.frexp(res)[0] == 0.5 and Fraction(T) % Fraction(res) == 0:
+    # the resolution is a power of two and T is an exact multiple of it: the division is exact in
+    # floating point too, nothing is ambiguous, the deadline is its own rounded deadline
+    return T, T
   lo = _ceil_frac(Fraction(T - EPS) / r) * r
   hi = _ceil_frac(Fraction(T + EPS) / r) * r
   return float(lo), float(hi)
@@ -100,7 +104,7 @@ def judge(actions, end_vt, res, out, crit_logs=0):
 
 class C10(BaseCheck):
   ID = 'C10'
-  RULE = ('case = fresh TimerQueue(resolution r in {0.01,0.1,1,0,None}) driven by 1-4 '
+  RULE = ('case = fresh TimerQueue(resolution r in {0.01,0.1,0.25,0.5,1,0,None}; with the power-of-two resolutions some deadlines lie exactly on a tick) driven by 1-4 '
           'producer greenlets issuing Schedule/cancel/sleep ops at seeded virtual instants '
           '(incl. grid-aligned boundary class, past deadlines, deadlines minutes ahead with long quiet stretches, '
           'ties, cancel of head / of run '
@@ -112,7 +116,7 @@ class C10(BaseCheck):
              'scales.timer_queue:TimerQueue.Schedule')
   REQUIRED_ANCHORS = ANCHORS
   REQUIRED_CLASSES = ('new-head-while-sleeping', 'past-deadline', 'tie', 'cancel-head',
-                      'boundary', 'far-deadlines')
+                      'boundary', 'far-deadlines', 'deadline-exactly-on-tick')
   ASSUMPTIONS = ('virtual clock: no timer lateness is injected (J=0), so lateness bounds are exact',
                  'rounded deadline computed in exact rationals; actions within 2us of a grid '
                  'point are exempt from the ordering clause only')
@@ -172,7 +176,7 @@ class C10(BaseCheck):
   def run_case(self, env, rng, idx, tier):
     import gevent
     from scales.timer_queue import TimerQueue
-    res = rng.choice([0.01, 0.01, 0.01, 0.1, 1, None, 0])
+    res = rng.choice([0.01, 0.01, 0.01, 0.1, 1, None, 0, 0.25, 0.5])
     reff = res or 0.01
     q = TimerQueue(time_source=env.clock.time, resolution=res)
     boundary = rng.random() < 0.3
@@ -226,6 +230,11 @@ class C10(BaseCheck):
           if boundary and rng.random() < 0.7:
             delta = round(delta / reff) * reff
           T = env.now + delta
+          if boundary and res in (0.25, 0.5, 1) and rng.random() < 0.7:
+            # a deadline that lies exactly on a tick of the resolution (whole seconds on the 1 s
+            # queue): it is its own rounded deadline
+            T = math.floor(env.now) + round((T - math.floor(env.now)) / res) * res
+            races.add('deadline-exactly-on-tick')
           hd = head_deadline()
           a = dict(id=len(actions) + 1, T=T, sched_vt=env.now, cancel_vt=None,
                    cancel_seq=None, runs=[], prod=pi, slice=slices[0])
